@@ -325,6 +325,10 @@ class Machine:
                 "mask_layout": rng.choice(("plain", "plain", "strided", "readonly"))}
 
     def gen_sliced(self, rng, palette):
+        if rng.random() < 0.08:
+            j = self._slot_where(rng, lambda s: s.a.ndim == 1)
+            if j is not None:
+                return {"op": "sliced", "slot": j, "orders": [], "dst": j}
         i = self._slot_where(rng, lambda s: s.a.ndim >= 2)
         if i is None:
             return None
@@ -343,7 +347,13 @@ class Machine:
 
     def gen_slices1d(self, rng, palette):
         i = self._slot_where(rng, lambda s: True)
-        return None if i is None else {"op": "slices1d", "slot": i}
+        if i is None:
+            return None
+        op = {"op": "slices1d", "slot": i}
+        if rng.random() < 0.5:
+            op["keep"] = rng.randrange(12)
+            op["dst"] = self._dst(rng)
+        return op
 
     def gen_reindexed(self, rng, palette):
         i = self._slot_where(rng, lambda s: s.a.ndim <= 2)
@@ -664,6 +674,16 @@ class Machine:
             self.last_mask = mask
 
     def do_sliced(self, op):
+        if op["orders"] == []:
+            # no higher axis to address: the documented result is the index itself, unchanged
+            s = self.slot(op["slot"], maxdim=1)
+            snap = model.snapshot(s.idx)
+            out = self.call("sliced", s.idx.sliced)
+            self.unchanged(s.idx, snap, "sliced")
+            dense = model.decode(out)
+            if dense.shape != s.a.shape or not numpy.array_equal(dense, s.a):
+                self.fail("C06", "dense-mismatch", "sliced", "sliced() of a 1-D index is %r, model %r" % (dense.tolist(), s.a.tolist()))
+            return
         s = self.slot(op["slot"], mindim=2, maxdim=3)
         orders = op["orders"]
         self.guard(len(orders) == s.a.ndim - 1)
@@ -720,6 +740,13 @@ class Machine:
                 self.fail("C07", m.vclass, "slices1d", str(m))
         if s.a.ndim == 3:
             self.stats.count("probe_slices1d_3d")
+        # a yielded slice may be kept and used (mutated, appended to ...) as an index of its own: it shares its
+        # row-id arrays with the parent, and neither may be affected by what happens to the other
+        keep = op.get("keep")
+        if keep is not None and s.a.ndim >= 2 and got:
+            c, sub = got[keep % len(got)]
+            self.put(op.get("dst", len(self.slots)), sub, s.a[(slice(None),) + tuple(c)].copy())
+            self.stats.count("probe_slice_from_slices1d_kept_as_index")
 
     def do_reindexed(self, op):
         s = self.slot(op["slot"], maxdim=2)
